@@ -168,11 +168,18 @@ func (e *mvccEngine) backupOp(toks []string) string {
 	conc, okc := natArg(toks, "conc")
 	var churn []int
 	hasChurn := false
+	churnEach := false
 	if c, ok := argOf(toks, "churn"); ok {
 		hasChurn = true
-		var okl bool
-		if churn, okl = keyList(c); !okl {
-			return "bad-op"
+		if c == "each" {
+			// every item is deleted right after the backup has written it (then a snapshot is cut, released and
+			// collected): the cursor of the backup always stands on a node that is being reclaimed
+			churnEach = true
+		} else {
+			var okl bool
+			if churn, okl = keyList(c); !okl {
+				return "bad-op"
+			}
 		}
 	}
 	churnAt, _ := argOf(toks, "churnat")
@@ -218,7 +225,7 @@ func (e *mvccEngine) backupOp(toks []string) string {
 		}
 		e.bkdir = freshDir()
 		e.refs[i]--
-		cb, finish := e.churnCallback(churn, hasChurn, churnAt == "gc")
+		cb, finish := e.churnCallback(churn, hasChurn, churnAt == "gc", churnEach)
 		err := e.db.StoreToDisk(e.bkdir, s, conc, cb)
 		finish()
 		if err != nil {
@@ -346,7 +353,7 @@ func (e *mvccEngine) backupOp(toks []string) string {
 				prev(point, obj)
 			}
 		}
-		cb, finish := e.churnCallback(churn, hasChurn, churnAt == "gc")
+		cb, finish := e.churnCallback(churn, hasChurn, churnAt == "gc", churnEach)
 		err := e.db.StoreToDisk(dir, s, conc, cb)
 		finish()
 		nitro.VerifHook = prev
@@ -366,9 +373,24 @@ func (e *mvccEngine) backupOp(toks []string) string {
 // churnCallback mutates the instance while a backup is running (on the first item callback): deletes keys
 // through writer 0, cuts a snapshot, releases it and lets the collector run. finish() performs the churn after
 // the store if no callback was made (empty snapshot), so that the script's effect is the same either way.
-func (e *mvccEngine) churnCallback(churn []int, has bool, atGC bool) (nitro.ItemCallback, func()) {
+func (e *mvccEngine) churnCallback(churn []int, has bool, atGC bool, each bool) (nitro.ItemCallback, func()) {
 	if !has {
 		return nil, func() {}
+	}
+	if each {
+		var mu sync.Mutex
+		cb := func(ent *nitro.ItemEntry) {
+			mu.Lock()
+			defer mu.Unlock()
+			k := e.keyOf(ent.Item().Bytes())
+			e.writers[0].Delete(e.item(k, 0))
+			cs, _ := e.db.NewSnapshot()
+			e.snaps = append(e.snaps, cs)
+			e.refs = append(e.refs, 0)
+			cs.Close()
+			e.gcQuiesce()
+		}
+		return cb, func() {}
 	}
 	churned := false
 	doChurn := func() {
